@@ -409,4 +409,5 @@ func c06Det(c *Ctx) {
 	c06detWRDSuite(c)
 	c06detQRSuite(c)
 	c06detDMSuite(c)
+	c06detAZSuite(c)
 }
